@@ -10,6 +10,7 @@ import Driver.Sig
 import Driver.Hybrid
 import Driver.Derive
 import Driver.Proto
+import Driver.Rand
 /-!
   `tvdrv`: one line in, one line out. The first token selects the model.
   Unknown or malformed lines answer `bad-op` (never a default).
@@ -63,6 +64,10 @@ def dispatch (st : DState) (line : String) : DState × String :=
     | none => (st, "bad-op")
   | "V" :: rest =>
     match Driver.Dv.handle rest with
+    | some out => (st, out)
+    | none => (st, "bad-op")
+  | "R" :: rest =>
+    match Driver.Rn.handle rest with
     | some out => (st, out)
     | none => (st, "bad-op")
   | "P" :: rest =>
